@@ -19,10 +19,10 @@ func Get(id string) core.Check { return registry[id] }
 
 // BudgetFor returns the exploration budget of a tier.
 func BudgetFor(id, tier string) core.Budget {
-	b := core.Budget{Secs: 35, ShrinkTry: 400}
+	b := core.Budget{Secs: 35, ShrinkTry: 150}
 	if tier == "thorough" {
 		b.Secs = 600
-		b.ShrinkTry = 1500
+		b.ShrinkTry = 600
 	}
 	return b
 }
